@@ -175,6 +175,20 @@ pub fn x(r: &mut Ref, e: &X) -> String {
             format!("(({a}) {}IN ({q}))", if *not { "NOT " } else { "" })
         }
         X::Scalar(s) => format!("({})", sel(r, s)),
+        X::CustWith(pieces, args, _) => {
+            // positional (`?`) templates take the arguments in order of appearance
+            let mut out = String::new();
+            for p in pieces {
+                match p {
+                    crate::xspec::TplPiece::Text(t) => out.push_str(t),
+                    crate::xspec::TplPiece::Arg(i) => {
+                        let a = x(r, &args[*i]);
+                        out.push_str(&format!("({a})"));
+                    }
+                }
+            }
+            out
+        }
         X::AsEnum(t, e) => {
             let a = x(r, e);
             if r.d == Dialect::Postgres {
